@@ -9,7 +9,7 @@ def run(ctx):
     seeds = [ctx.seed] if not ctx.thorough else [ctx.seed + i for i in range(3)]
     simple.run(ctx, go_cmds=['corr10'], lean_targets=['Smtb.Properties.C10'], prop_file='Smtb/Properties/C10.lean', theorems=THEOREMS,
                trace_targets=[], corr_runs=[('corr10', ['-seed', s, '-n', ctx.pick(150, 3000)]) for s in seeds], search_runs=[],
-               corr_name='proof-json', driver_args=['corr', 'c10'],
+               corr_name='proof-json', driver_args=['corr', 'c10'], ok_exit=(0, 3),
                what='real json.Marshal/Unmarshal of prover.Proof on proofs built from real curve points (incl. points with very small coordinates)',
                spec='Lean model of the 256-byte buffer <-> eight hex words codec (round trip proved for every buffer)',
                assumptions=["assumed about gnark-crypto and validated here: WriteRawTo lays out A.x A.y | B.x.A1 B.x.A0 B.y.A1 B.y.A0 | C.x C.y (32 bytes each) and ReadFrom∘WriteRawTo = id on valid proofs",
